@@ -21,7 +21,7 @@ import vlib
 ALL_DEVS = ["DataFailNoAbort", "CommitStopsAtFirst", "LmtpStatusKey", "EhloNoLogout",
             "MailRawSender", "NestedMail", "LmtpCommitErrLost", "LmtpCommitAfterReject"]
 
-KEEP = {"Cfg", "Cmd", "Reply", "Tgt", "End", "Crash"}
+KEEP = {"Cfg", "Cmd", "Reply", "Tgt", "End", "Crash", "Env"}
 
 # annotated temporary / annotated permanent / not annotated at all
 ALL_FAILS = ["temp", "perm", "unspec"]
@@ -37,6 +37,8 @@ CONSTANTS
   Fails = {%(fails)s}
   MaxFaults = %(maxfaults)d
   MaxCmds = %(maxcmds)d
+  MaxEnv = %(maxenv)d
+  EnvPlan = "%(envplan)s"
   Allowed = {%(allowed)s}
   Devs = {%(devs)s}
   Gen = %(gen)s
@@ -49,9 +51,9 @@ def q(xs):
 
 
 def cfg(rcpts=(), nts=(), fails=(), maxfaults=1, maxcmds=5, devs=(), gen=False, tail="", spec="Spec",
-        allowed=("*",), lmtps=("TRUE", "FALSE"), holds=("TRUE", "FALSE")):
+        allowed=("*",), lmtps=("TRUE", "FALSE"), holds=("TRUE", "FALSE"), maxenv=0, envplan="any"):
     return CFG % dict(spec=spec, allowed=q(allowed), lmtps=", ".join(lmtps), holds=", ".join(holds), rcpts=q(rcpts), nts=", ".join(str(n) for n in nts), fails=q(fails),
-                      maxfaults=maxfaults, maxcmds=maxcmds, devs=q(devs),
+                      maxfaults=maxfaults, maxcmds=maxcmds, maxenv=maxenv, envplan=envplan, devs=q(devs),
                       gen="TRUE" if gen else "FALSE", tail=tail)
 
 
@@ -282,6 +284,8 @@ def normalise(events):
             e = {x: e[x] for x in ("t", "seq", "e", "open", "all", "ip", "source")}
         elif k == "Crash":
             e = {x: e[x] for x in ("t", "seq", "e")}
+        elif k == "Env":
+            e = {x: e[x] for x in ("t", "seq", "e", "k", "res")}
         out.append(e)
     return out
 
@@ -450,7 +454,7 @@ def run(ctx, replay):
         if thorough:
             return ctx.tlc_expect_ok("Session", None, name="mc", workers=12, timeout=3000, heap="12g",
                                      cfg_text=cfg(["ra", "rb"], [1, 2, 3], ["temp", "perm"], 2, 8, tail=MC_TAIL))
-        return ctx.tlc_expect_ok("Session", None, name="mc", workers=8, timeout=600, heap="4g",
+        return ctx.tlc_expect_ok("Session", None, name="mc", workers=8, timeout=1500, heap="4g",
                                  cfg_text=cfg(["ra", "rb"], [1, 2], ["perm"], 1, 6, tail=MC_TAIL))
 
     def job_live():   # liveness (every session ends) on a smaller bound
@@ -499,6 +503,27 @@ def run(ctx, replay):
                        cfg_text=cfg(["ra"], [1], ["perm"], 0, 8, devs=open_devs, gen=True,
                                     tail="VIEW GenViewTx\n" + GEN_TAIL, lmtps=["TRUE"], holds=["FALSE"], allowed=al))
 
+    ENV_ALPHABET = ["HELO:", "MAIL:ok", "RCPT:ok", "DATA:ok", "RSET:", "DROP:"]
+    # plan name -> commands per behaviour (see Session!EnvPlans)
+    ENV_PLANS = {"SP": 6, "SPM": 5, "PS": 5, "PWM": 5, "WPM": 5, "SS": 5} if thorough else \
+        {"SP": 5, "SPM": 4, "PS": 4, "PWM": 4}
+
+    def job_mcenv():   # the design with an unrestricted environment at the limits group between the commands
+        return ctx.tlc_expect_ok("Session", None, name="mc-env", workers=2, timeout=900, heap="2g",
+                                 cfg_text=cfg(["ra"], [1, 2], ["perm"], 1, 6 if thorough else 5, tail=MC_TAIL,
+                                              holds=["FALSE"], maxenv=3 if thorough else 2))
+
+    def job_env(plan, mc):   # where the events of an environment plan fall between the commands of the conversation
+        return ctx.tlc("Session", None, name="env-" + plan, workers=1, timeout=900, heap="1g",
+                       cfg_text=cfg(["ra"], [1], [], 0, mc, devs=open_devs, gen=True, tail="VIEW GenViewEnv\n" + GEN_TAIL,
+                                    holds=["FALSE"], allowed=ENV_ALPHABET, maxenv=3, envplan=plan))
+
+    def job_alias():   # LMTP, one target, two recipients: the histories in which a target holds several recipients
+        return ctx.tlc("Session", None, name="alias", workers=2, timeout=900, heap="1g",
+                       cfg_text=cfg(["ra", "rb"], [1], ALL_FAILS, 2 if thorough else 1, 7,
+                                    devs=open_devs, gen=True, tail="VIEW GenViewRes\n" + GEN_TAIL, lmtps=["TRUE"],
+                                    holds=["FALSE"], allowed=["HELO:", "MAIL:ok", "RCPT:ok", "DATA:ok", "RSET:", "DROP:"]))
+
     def job_sim(i, n, rc, nts, mf, mc):
         return ctx.tlc("Session", None, name="sim%d" % i, workers=1, timeout=1500, simulate=n, depth=150, heap="2g",
                        cfg_text=cfg(rc, nts, ALL_FAILS, mf, mc, devs=open_devs, gen=True, tail=GEN_TAIL))
@@ -518,6 +543,9 @@ def run(ctx, replay):
             f_core = ex.submit(job_core)
             f_spell = ex.submit(job_spell)
             f_fclass = ex.submit(job_fclass)
+            f_mcenv = ex.submit(job_mcenv)
+            f_alias = ex.submit(job_alias)
+            f_env = {pl: ex.submit(job_env, pl, mc) for pl, mc in ENV_PLANS.items()}
             f_asis = {dv: ex.submit(job_asis, dv) for dv in ALL_DEVS}
             f_sim = [ex.submit(job_sim, i, *a) for i, a in enumerate(sims)]
             f_repo = ex.submit(repo_test_traces, ctx, open_devs, by_dev)   # cheap, independent of the rest
@@ -531,6 +559,12 @@ def run(ctx, replay):
             gc = f_core.result()
             gsp = f_spell.result()
             gfc = f_fclass.result()
+            rme = f_mcenv.result()
+            gal = f_alias.result()
+            genv = {pl: f.result() for pl, f in f_env.items()}
+        ctx.cov["env_design_states"] = rme["distinct"]
+        ctx.log("TLC exhaustive (design with the environment at the limits group): %d distinct states, %.1fs" % (
+            rme["distinct"], rme["wall"]))
         ctx.cov["states"] = r["distinct"]
         ctx.cov["transitions"] = r["generated"]
         ctx.cov["model_depth"] = r["depth"]
@@ -585,9 +619,73 @@ def run(ctx, replay):
             if not gi["ok"]:
                 raise vlib.Infra("behaviour simulation failed: %s %s" % (gi["invariant"], gi["error"]))
             behs += behaviours_from(gi)
+        # the environment at the limits group: per plan, one behaviour per (final state, position of every event);
+        # the ones in which an event falls inside a transaction (after an accepted MAIL / RCPT) first
+        def live_env(b):
+            last = None
+            for h in b["hist"]:
+                if h.get("a") == "Cmd":
+                    last = h
+                elif h.get("a") == "Env" and last is not None and last["v"] in ("MAIL", "RCPT"):
+                    return True
+            return False
+        n_env = {}
+        for pl, ge in genv.items():
+            if not ge["ok"]:
+                raise vlib.Infra("environment behaviour generation (%s) failed: %s %s" % (pl, ge["invariant"], ge["error"]))
+            eb = [b for b in behaviours_from(ge) if any(h.get("a") == "Env" for h in b["hist"])]
+            n_env[pl] = len(eb)
+            if thorough:
+                behs += eb
+            else:
+                live = [b for b in eb if live_env(b)]
+                behs += stratified(ctx.rng, live, 80) + stratified(ctx.rng, [b for b in eb if not live_env(b)], 30)
+        ctx.cov["environment_behaviours"] = n_env
         behs = dedup(behs)
         if not behs:
             raise vlib.Infra("TLC produced no behaviours")
+        # harness-only concretisation of the pipeline (the design is independent of it): recipients rewritten by a
+        # real replace_rcpt so that several original recipients reach a target under ONE address (aliases of a
+        # mailbox), in every scope a modifier can be configured in
+        def shared_target(b):   # two accepted recipients on one target in a transaction that reaches DATA / BDAT LAST
+            per = {}
+            for h in b["hist"]:
+                if h.get("a") == "Tgt" and h["op"] == "rcpt" and h["res"] == "ok":
+                    per[h["tgt"]] = per.get(h["tgt"], 0) + 1
+                elif h.get("a") == "Cmd" and h["v"] in ("RSET", "HELO"):
+                    per = {}
+                elif h.get("a") == "Cmd" and (h["v"] == "DATA" or (h["v"] == "BDAT" and h["arg"] == "last")):
+                    if any(v > 1 for v in per.values()):
+                        return True
+                    per = {}
+            return False
+
+        def alias_variants(b, kinds):
+            return [dict(b, cfg=dict(b["cfg"], alias=k)) for k in kinds if k in ("dest", "destself") or b["cfg"]["nt"] == 1]
+        if not gal["ok"]:
+            raise vlib.Infra("shared-target behaviour generation failed: %s %s" % (gal["invariant"], gal["error"]))
+        pool = dedup([dict(b) for b in behaviours_from(gal) + ex_b + core_b + fc_b + behs
+                      if not any(h.get("a") == "Env" for h in b["hist"])])
+        sh_l = [b for b in pool if b["cfg"]["lmtp"] and shared_target(b)]
+        sh_s = [b for b in pool if not b["cfg"]["lmtp"] and shared_target(b)]
+        rest = [b for b in pool if not shared_target(b)]
+        al = []
+        for b in stratified(ctx.rng, sh_l, 400 if thorough else 60):
+            al += alias_variants(b, ["dest", "destself", "src", "global"])
+        for b in stratified(ctx.rng, sh_s, 200 if thorough else 20) + stratified(ctx.rng, rest, 200 if thorough else 20):
+            al += alias_variants(b, [ctx.rng.choice(["dest", "destself", "src", "global"])])
+        # ... and who refuses: the recipient rej@ / the message of class "chk" is refused by a failing modifier
+        # (top level, source block, destination blocks) instead of a `reject` destination / the scripted check
+        def has_cmd(b, v, a):
+            return any(h.get("a") == "Cmd" and h["v"] == v and h["arg"] == a for h in b["hist"])
+        vias = ["gmod", "smod", "dmod"]
+        for b in stratified(ctx.rng, [b for b in pool if has_cmd(b, "DATA", "chk")], 600 if thorough else 90):
+            al.append(dict(b, cfg=dict(b["cfg"], chkvia=ctx.rng.choice(vias))))
+        for b in stratified(ctx.rng, [b for b in pool if has_cmd(b, "RCPT", "rej")], 600 if thorough else 60):
+            al.append(dict(b, cfg=dict(b["cfg"], rejvia=ctx.rng.choice(vias))))
+        ctx.cov["alias_candidates_lmtp_shared_target"] = len(sh_l)
+        ctx.cov["pipeline_variants_replayed"] = len(al)
+        behs = dedup(behs + al)
         # harness-only concretisation of a connection lost inside DATA: every buffer mode of the endpoint
         # (ram, fs, auto with the limit below / above the message size) x where the connection is lost
         # (inside the body, right after the header, before the first byte)
@@ -657,7 +755,7 @@ def run(ctx, replay):
             selftest = {900001: "corrupt-field", 900002: "drop-event"}
 
     tcfg = cfg(["ra", "rb", "rc"], [1, 2, 3], ALL_FAILS, 1000, 1000, devs=open_devs,
-               tail=TRACE_TAIL, spec="TSpec")
+               tail=TRACE_TAIL, spec="TSpec", maxenv=1000)
     verdicts, by_t = validate_parallel(ctx, "SessionTrace", events, KEEP, tcfg, batch=500)
 
     ok = drift = known_n = 0
@@ -716,7 +814,15 @@ def run(ctx, replay):
                        "stratified sample of 5000; thorough: <=7 commands, 25000); (c) focused corners: every failure class (annotated temporary / permanent / not annotated) at every "
                        "target call of a two-target transaction; nested MAIL with an idle source bucket; LMTP with one recipient in two spellings "
                        "across the transactions of a session (<=8 commands); (d) "
-                       "-simulate with VERIF_SEED up to 12 commands; de-duplicated; stratified = round-robin over protocol x "
+                       "-simulate with VERIF_SEED up to 12 commands; (e) the environment at the limits group (Session!EnvStep: time "
+                       "passes beyond the reap interval, a storm of other source addresses / sender domains over a bucket table "
+                       "capped at 4 entries, another session of the same address and sender domain taking / returning its "
+                       "permits) per plan (SP, SPM, PS, PWM; thorough also WPM, SS): one behaviour per (final state, position of every "
+                       "event between the commands), quick: stratified sample of 110 per plan, thorough: all; (f) harness-only "
+                       "pipeline variants of sampled behaviours: recipients rewritten N->1 by a real replace_rcpt in destination / "
+                       "source / global scope (all LMTP histories with two recipients on one target first), the refused recipient "
+                       "/ the refused message refused by a failing modifier in each scope instead of a reject directive / the "
+                       "check; de-duplicated; stratified = round-robin over protocol x "
                        "mode x targets x routing x deviations x fault placement; non-trivial = "
                        "a scripted failure, an invalid/odd argument, RSET/drop/pipelining or BDAT")
     for b in behs[:3]:
@@ -733,7 +839,14 @@ def run(ctx, replay):
         "with one target per recipient (two targets setting the status of one recipient race with go-smtp's "
         "collector)",
         "faults are injected in the scripted targets (Start/AddRcpt/Body/BodyNonAtomic/Commit/Abort) and in a "
-        "scripted check (sender and body stage); modifiers are not scripted",
+        "scripted check (sender and body stage); a scripted modifier (modify.verifsess) fails at the recipient stage "
+        "and at the body stage in the variants where it replaces the reject directive / the check; recipient rewriting "
+        "is the real modify.replace_rcpt (N original recipients -> one address; 1 -> N expansion is not exercised here, see C09)",
+        "environment events run in the server's goroutine at the instant it asks the connection for the next command "
+        "(the session is idle); the other session and the storm act on the endpoint's limits.Group directly (TakeMsg / "
+        "ReleaseMsg), with the bucket tables capped at 4 entries for such behaviours; what the design promises is stated "
+        "on the permit counters: at the end of the session and whenever no transaction is open they equal what the other "
+        "session holds",
         "the client is a raw line-based script played through an in-memory net.Conn handed to the go-smtp server; "
         "events are logged by the server's own goroutine where it takes a command from / puts a reply on the wire",
         "a connection lost inside DATA is replayed with every buffer mode of the endpoint (ram, fs, auto with the "
@@ -761,7 +874,8 @@ META = {
             "from the real endpoint driven with TLC-generated scripts (sampled by simulation in quick; exhaustive for "
             "<=4 commands plus 18000 simulated behaviours in thorough).",
     "note": "Targets and one check are scripted; go-smtp (pinned fork) is part of the executed code and of the model; "
-            "time is the fake clock of a synctest bubble; AUTH, modifiers and limit saturation are outside this check; "
+            "time is the fake clock of a synctest bubble; AUTH and limit saturation by more than one other session are "
+            "outside this check; "
             "trusted: TLC, the harness, Go toolchain.",
     "design_ref": "DESIGN.md section 5 C03",
 }
